@@ -125,7 +125,7 @@ func (s *Sim) takeSnapshot(detail bool) Snapshot {
 		if detail && !parked {
 			gi := GoroutineInfo{ID: id, State: state, Stable: stable}
 			lines := bytes.Split(blk, []byte("\n"))
-			for i := 1; i < len(lines) && len(gi.Frames) < 6; i++ {
+			for i := 1; i < len(lines) && len(gi.Frames) < 14; i++ {
 				ln := lines[i]
 				if len(ln) == 0 || ln[0] == '\t' {
 					continue
@@ -243,6 +243,7 @@ func (s *Sim) detectSpin(stalled time.Duration) (Snapshot, bool) {
 	w0 := time.Now()
 	count := map[string]int{}
 	sleepers := map[string]int{}
+	common := map[string]map[string]bool{}
 	var last Snapshot
 	for i := 0; i < samples; i++ {
 		snap := s.takeSnapshot(true)
@@ -272,17 +273,25 @@ func (s *Sim) detectSpin(stalled time.Duration) (Snapshot, bool) {
 				}
 				continue
 			}
-			top := ""
-			for _, f := range g.Frames {
-				if !hasPrefix(f, "runtime.") && !hasPrefix(f, "sync.") && !hasPrefix(f, "syscall.") && !hasPrefix(f, "internal/") && !hasPrefix(f, "os.") && !hasPrefix(f, "bufio.") {
-					top = f
-					break
-				}
-			}
-			k := strconv.FormatUint(g.ID, 10) + "@" + top
+			// a spinning goroutine is identified by its id; the functions that
+			// are on its stack in every sample say where it spins
+			k := strconv.FormatUint(g.ID, 10)
 			if !seen[k] {
 				seen[k] = true
 				count[k]++
+				cur := map[string]bool{}
+				for _, f := range g.Frames {
+					cur[f] = true
+				}
+				if prev, ok := common[k]; ok {
+					for f := range prev {
+						if !cur[f] {
+							delete(prev, f)
+						}
+					}
+				} else {
+					common[k] = cur
+				}
 			}
 		}
 		time.Sleep(gap)
@@ -290,9 +299,15 @@ func (s *Sim) detectSpin(stalled time.Duration) (Snapshot, bool) {
 	syscall.Getrusage(syscall.RUSAGE_SELF, &ru1)
 	cpu := time.Duration(ru1.Utime.Nano()-ru0.Utime.Nano()) + time.Duration(ru1.Stime.Nano()-ru0.Stime.Nano())
 	wall := time.Since(w0)
-	for _, c := range count {
+	for k, c := range count {
 		if c == samples && cpu > wall/5 {
-			return last, true
+			// only code of the library under test counts (a harness goroutine
+			// that spins is a harness problem: the watchdog reports it)
+			for f := range common[k] {
+				if hasPrefix(f, "github.com/deadsy/sdfx/") {
+					return last, true
+				}
+			}
 		}
 	}
 	if stalled >= s.SleepBound && s.SleepBound > 0 {
